@@ -91,9 +91,20 @@ pub fn check(case: &Case, st: &mut Stats) -> Result<(), Violation> {
                     st.class("tolerated_fullrange_chroma_0_to_1", 1);
                     continue;
                 }
+                let bad = |q: [u16; 3]| -> bool {
+                    let r = if case.u8_storage { roundtrip::<u8>(c, &[q]) } else { roundtrip::<u16>(c, &[q]) };
+                    match r {
+                        Ok((b, _, _, _)) => {
+                            let w = expected(c, q);
+                            (0..3).any(|k| b[0][k] != w[k] && !(c.full_range && k > 0 && q[k] == 0 && b[0][k] == 1))
+                        }
+                        Err(_) => false,
+                    }
+                };
+                let small = minimize_codes(*code, [half, half, half], bad);
                 return Err(fail(
-                    format!("triple {:?} plane {}: came back as {} (expected {}) cfg {}", code, j, back[i][j], want[j], cfg_json(c)),
-                    &[*code],
+                    format!("triple {:?} plane {}: came back as {} (expected {}) cfg {}; shrunk reproduction {:?}", code, j, back[i][j], want[j], cfg_json(c), small),
+                    &[small],
                 ));
             }
         }
@@ -116,7 +127,7 @@ pub fn check(case: &Case, st: &mut Stats) -> Result<(), Violation> {
 }
 
 pub fn run(ctx: &Ctx, st: &mut Stats) -> Vec<Violation> {
-    let mut v = run_proptest(ctx, st, "random", ctx.pick(6000, 60000), strategy, check);
+    let mut v = run_proptest(ctx, st, "random", ctx.cases(30_000, 300_000), strategy, check);
     if !v.is_empty() {
         return v;
     }
@@ -129,7 +140,7 @@ pub fn run(ctx: &Ctx, st: &mut Stats) -> Vec<Violation> {
 }
 
 fn exhaustive_8bit(ctx: &Ctx, st: &mut Stats) -> Vec<Violation> {
-    let ystep: u64 = ctx.pick(13, 1);
+    let ystep: u64 = if ctx.light { 17 } else { ctx.pick(5, 1) };
     let nconf = (STD_MC.len() * 2 * 2) as u64;
     let ys: Vec<u64> = (0..256).step_by(ystep as usize).collect();
     let total = nconf * ys.len() as u64;
